@@ -2,7 +2,6 @@ package journal
 
 import (
 	"fmt"
-	"sort"
 
 	"github.com/sboehler/knut/lib/amounts"
 	"github.com/sboehler/knut/lib/common/compare"
@@ -14,7 +13,6 @@ import (
 	"github.com/sboehler/knut/lib/model/posting"
 	"github.com/sboehler/knut/lib/model/price"
 	"github.com/sboehler/knut/lib/model/transaction"
-	"github.com/sboehler/knut/lib/syntax"
 	"github.com/shopspring/decimal"
 )
 
@@ -176,37 +174,14 @@ func CloseAccounts(j *Builder, reg *model.Registry, enable bool, partition date.
 	}
 }
 
-// Sort sorts the directives in this day. Transactions are sorted by content.
-// Other directives of the same kind are brought into the order of their source
-// locations (file path, then position), because the order in which the
-// concurrent loader delivers files differs from run to run; directives
-// without a source location keep their relative order.
+// Sort sorts the transactions in this day.
 func Sort() *Processor {
 	return &Processor{
 		DayEnd: func(d *Day) error {
 			compare.Sort(d.Transactions, transaction.Compare)
-			sort.SliceStable(d.Prices, func(i, j int) bool {
-				return d.Prices[i].Src != nil && d.Prices[j].Src != nil && sourceBefore(d.Prices[i].Src.Range, d.Prices[j].Src.Range)
-			})
-			sort.SliceStable(d.Openings, func(i, j int) bool {
-				return d.Openings[i].Src != nil && d.Openings[j].Src != nil && sourceBefore(d.Openings[i].Src.Range, d.Openings[j].Src.Range)
-			})
-			sort.SliceStable(d.Assertions, func(i, j int) bool {
-				return d.Assertions[i].Src != nil && d.Assertions[j].Src != nil && sourceBefore(d.Assertions[i].Src.Range, d.Assertions[j].Src.Range)
-			})
-			sort.SliceStable(d.Closings, func(i, j int) bool {
-				return d.Closings[i].Src != nil && d.Closings[j].Src != nil && sourceBefore(d.Closings[i].Src.Range, d.Closings[j].Src.Range)
-			})
 			return nil
 		},
 	}
-}
-
-func sourceBefore(r1, r2 syntax.Range) bool {
-	if r1.Path != r2.Path {
-		return r1.Path < r2.Path
-	}
-	return r1.Start < r2.Start
 }
 
 type Collection interface {
